@@ -121,6 +121,10 @@ pub trait Observer {
     fn before_receive_commit(&mut self, _w: &mut World, _receiver: usize, _bytes: &[u8]) -> CaseResult {
         Ok(())
     }
+    /// Called when a commit has been built and is pending at the committer (not yet sent).
+    fn after_build(&mut self, _w: &mut World, _committer: usize) -> CaseResult {
+        Ok(())
+    }
     /// Called when the library refused to build a commit.
     fn commit_refused(&mut self, _w: &mut World, _committer: usize, _e: &OpErr) -> CaseResult {
         Ok(())
@@ -258,7 +262,10 @@ impl<'a> History<'a> {
         self.classify_before_commit();
         obs.before_commit(&mut self.w, committer)?;
         let before_leaves = tree_shape(&self.w).0;
-        match self.w.commit_round_with(committer, &spec, &mut |w, m, b| obs.before_receive_commit(w, m, b))? {
+        match self.w.commit_round_with(committer, &spec, &mut |w, st| match st {
+            Stage::AfterBuild { committer } => obs.after_build(w, committer),
+            Stage::BeforeReceive { receiver, bytes } => obs.before_receive_commit(w, receiver, bytes),
+        })? {
             Err(e) => {
                 self.stats.commit_build_errors += 1;
                 self.w.count(&format!("commit_refused:{}", e.class()));
@@ -549,7 +556,10 @@ impl<'a> History<'a> {
                 }
                 let via = via_candidates[pick(op[1], via_candidates.len())];
                 obs.before_commit(&mut self.w, joiner)?;
-                match self.w.external_commit_round_with(joiner, via, remove_leaf, tree_in_info, op[4], &mut |w, m, b| obs.before_receive_commit(w, m, b))? {
+                match self.w.external_commit_round_with(joiner, via, remove_leaf, tree_in_info, op[4], &mut |w, st| match st {
+            Stage::AfterBuild { committer } => obs.after_build(w, committer),
+            Stage::BeforeReceive { receiver, bytes } => obs.before_receive_commit(w, receiver, bytes),
+        })? {
                     Err(e) => {
                         self.stats.commit_build_errors += 1;
                         self.w.count(&format!("external_commit_refused:{}", e.class()));
